@@ -47,6 +47,45 @@ def oracle_case(ctx, s, w, pol, kind, v, log):
                       py_value=v, **info)
 
 
+def chain_built(ctx):
+    """whatever refinement chains the tree under test ACCEPTS (every ordered pair / some triples of refinements of the
+    C11 universes, with and without a value first) paired with a witness found by trying a small universe of candidate
+    values against the independent Conforms oracle — a chain the declaration layer should have refused shows up here as a
+    satisfiable schema fake() cannot honour"""
+    import itertools
+    from .C11 import UNIVERSE
+    cands = {"str": ["", "a", "b", "ab", "ba", "abc", "z", "zz", "aab", "abz", "{}", "a{b}", "%s", "aaa", "abcabc", "xabcx"],
+             "int": [0, 1, 3, 4, 5, -1, 2 ** 63 + 1, 2 ** 64, 10 ** 30, -2 ** 70],
+             "float": [0.0, 0.1, 0.15, 0.2, 1.5, 2.0, 3.14, 3.14159, 1e19, 2e19, -1e19, -2e19, 1e300],
+             "list": [[], [1], [1, "a"], [1, 2], [1, 2, 3], ["a", "b", "c"], [1, "a", 2, 3, 4]]}
+    out = []
+    for key, u in UNIVERSE.items():
+        facade = u.get("facade", key)
+        for value in u["values"][:3]:
+            combos = list(itertools.permutations(u["ops"], 2))
+            if not ctx.quick():
+                combos += ctx.rnd.sample(list(itertools.permutations(u["ops"], 3)), 300)
+            for combo in combos:
+                try:
+                    s = getattr(schema, facade)
+                    if value is not None:
+                        s = s(value)
+                    for m, a in combo:
+                        s = getattr(s, m)(*a)
+                except Exception:  # noqa: BLE001
+                    continue
+                ctx.count("chain_built_declarable")
+                for w in ([value] if value is not None and not isinstance(value, list) else []) + cands[facade]:
+                    try:
+                        if conforms.conforms(s, w):
+                            out.append((s, w))
+                            break
+                    except Exception:  # noqa: BLE001
+                        pass
+    ctx.count("chain_built_with_witness", len(out))
+    return out
+
+
 def run(ctx):
     from .. import extract_consts
     extract_consts.run()
@@ -100,7 +139,7 @@ def run(ctx):
             ctx.count("corpus_build_exception:" + type(e).__name__)
     corpus = built + valcases.scalar_corpus() + [
         (schema.uuid4, SR.FIXED_UUIDS[0]), (schema.date, SR.FIXED_TODAY), (schema.datetime, SR.FIXED_NOW)]
-    pairs = corpus + pairs
+    pairs = corpus + chain_built(ctx) + pairs
     cases = []
     for s, w in pairs:
         # a schema is only used to accuse `fake` when its witness is accepted by the real validator AND by the
